@@ -79,6 +79,14 @@ PROPS = {
                 "(no elasticity, pool suspending itself) must report their error and leave the workers running.",
         "required_probes": ["suspend_pu", "resume_pu", "suspend_pool", "resume_pool", "refused.no_elasticity", "refused.self_suspend", "tasks"],
     },
+    "C12": {
+        "quick_runs": 4000, "thorough_runs": 250000, "seed": 12000001,
+        "rule": "C12 programs: 3-60 canary tasks in waves (so that thread objects and stacks are recycled) over the four stack classes "
+                "with drawn sizes (guard pages on/off); each recurses to a drawn fraction of its usable stack filling every frame with a "
+                "pattern, keeps integer and floating point locals and task-local data live across 0-5 yields at the deepest point, "
+                "and may leave 'dirt' (interruption disabled, an exit callback) for the next user of its thread object.",
+        "required_probes": ["resumed_on_another_worker", "left_interruption_disabled", "canary_tasks"],
+    },
     "C13": {
         "quick_runs": 6000, "thorough_runs": 400000, "seed": 13000001,
         "kf_subs": {"kf_shared_priority": 32, "kf_yield_noexcept": 16},
